@@ -19,7 +19,8 @@ RULE = (
     "Hypothesis: n in 1..4, R in 1..3, P in 1..4; x inside the bounds; finite / half-infinite / infinite bounds; "
     "per-variable magnitudes, ABSOLUTE or RELATIVE (fraction of the bound range) per variable, boundary type NONE / "
     "TRUNCATE_BOTH / MIRROR_BOTH per variable; samples injected through a design sampler, from small steps to "
-    "overshoots of ~50 bound widths; optional VariableScaler (then everything is compared in the user domain); the "
+    "overshoots of ~50 bound widths; 1-3 samplers with a per-variable assignment (unused samplers, variables without "
+    "sampler), samplers that hand out a fresh array or the very array they keep, two consecutive evaluations; optional VariableScaler (then everything is compared in the user domain); the "
     "perturbed vectors are read both from the evaluator's arguments and from GradientEvaluations.perturbed_variables. "
     "Oracle: raw = x + m*s, then NONE: raw; TRUNCATE: clip; MIRROR: raw if inside, the single reflection if that lands "
     "inside, otherwise only 'inside the bounds'. Non-trivial: >=1 entry leaves the bounds before post-processing."
@@ -37,22 +38,43 @@ def run_case(case: dict[str, Any]) -> dict[str, Any]:  # noqa: C901, PLR0912
         "realizations": {"weights": [1.0] * r_n},
         "gradient": {"number_of_perturbations": p_n, "perturbation_magnitudes": case["magnitudes"],
                      "perturbation_types": case["types"], "boundary_types": case["boundary"]},
-        "samplers": [{"method": "design/fixed"}],
+        "samplers": [{"method": f"design{k}/fixed"} for k in range(case.get("S", 1))],
     }
+    if case.get("assign") is not None:
+        cfg["gradient"]["samplers"] = case["assign"]
     transforms = None
     scale = np.ones(n)
     if case["scales"] is not None:
         scale = np.array(case["scales"], dtype=np.float64)
         transforms = OptModelTransforms(variables=VariableScaler(scale, np.array(case["offsets"], dtype=np.float64)))
-    samples = np.array(case["samples"], dtype=np.float64).reshape(r_n, p_n, n)
+    s_n = case.get("S", 1)
+    all_samples = np.array(case["samples"], dtype=np.float64).reshape(s_n, r_n, p_n, n)
     manager = PluginManager()
-    manager.add_plugin("sampler", "design", DesignSamplerPlugin([samples]))
+    for k in range(s_n):
+        manager.add_plugin("sampler", f"design{k}", DesignSamplerPlugin([all_samples[k]], nocopy=bool(case.get("nocopy"))))
+    # effective sample of every variable: the sampler it is assigned to (variables without a sampler are not perturbed)
+    if case.get("assign") is None:
+        samples = all_samples[0]
+    else:
+        samples = np.zeros((r_n, p_n, n))
+        for v, k in enumerate(case["assign"]):
+            if k >= 0:
+                samples[..., v] = all_samples[k][..., v]
     config = EnOptConfig.model_validate(cfg, context=transforms)
     ev = AffineEvaluator(np.ones((r_n, 1, n)), np.zeros((r_n, 1)))
     ens = EnsembleEvaluator(config, transforms, ev, manager)
     x_opt = np.asarray(config.variables.initial_values)
+    left = False
+    for evaluation in range(2):  # the second evaluation must use the same (uncorrupted) design
+        left = _one_evaluation(case, ens, ev, transforms, x_opt, samples, scale, evaluation) or left
+    return {"left": left}
+
+
+def _one_evaluation(case: dict[str, Any], ens: Any, ev: Any, transforms: Any, x_opt: np.ndarray, samples: np.ndarray,  # noqa: ANN401, C901, PLR0912, PLR0913
+                    scale: np.ndarray, evaluation: int) -> bool:
+    n, r_n, p_n = case["n"], case["R"], case["P"]
     fres, gres = ens.calculate(x_opt, compute_functions=True, compute_gradients=True)
-    received = ev.calls[0]["variables"][r_n:].reshape(r_n, p_n, n)
+    received = ev.calls[evaluation]["variables"][r_n:].reshape(r_n, p_n, n)
     reported = np.asarray(gres.evaluations.perturbed_variables)
     if transforms is not None:
         reported = transforms.variables.from_optimizer(reported)
@@ -63,7 +85,7 @@ def run_case(case: dict[str, Any]) -> dict[str, Any]:  # noqa: C901, PLR0912
     raw = x + m * samples
     left = False
     tol_rel = 1e-12 if transforms is not None else 0.0
-    for name, got in (("evaluator rows", received), ("perturbed_variables", reported)):
+    for name, got in ((f"evaluation {evaluation}, evaluator rows", received), (f"evaluation {evaluation}, perturbed_variables", reported)):
         check(got.shape == (r_n, p_n, n), "shape", f"{name}: shape {got.shape}", case)
         for v in range(n):
             btype = case["boundary"][v]
@@ -92,7 +114,7 @@ def run_case(case: dict[str, Any]) -> dict[str, Any]:  # noqa: C901, PLR0912
                             check(abs(val - refl) <= tol + 4 * np.spacing(abs(bound)), "mirror",
                                   f"{name}: variable {v}: raw {rv!r} mirrored at {bound!r} should be {refl!r}, got {val!r}", case)
     del fres
-    return {"left": left}
+    return left
 
 
 def hypothesis_shard(item: dict[str, Any]) -> Collector:
@@ -125,9 +147,15 @@ def hypothesis_shard(item: dict[str, Any]) -> Collector:
             mags.append(draw(st.sampled_from([0.001, 0.01, 0.1, 0.5] if rel else [0.001, 0.05, 0.5, 2.0])))
         amp = draw(st.sampled_from([1.0, 1.0, 5.0, 60.0, 3000.0]))
         sample = st.one_of(st.sampled_from([-1.0, 1.0, 0.0, 0.5, -0.25]), st.floats(-1, 1, allow_nan=False, width=32).map(float))
-        samples = [draw(sample) * (amp if draw(st.booleans()) else 1.0) for _ in range(r_n * p_n * n)]
+        s_n = draw(st.integers(1, 3))
+        samples = [draw(sample) * (amp if draw(st.booleans()) else 1.0) for _ in range(s_n * r_n * p_n * n)]
         scaled = draw(st.integers(0, 2)) == 0
-        return {"n": n, "R": r_n, "P": p_n, "x": x, "lb": lb, "ub": ub, "types": types, "magnitudes": mags,
+        assign = None
+        if s_n > 1 or draw(st.booleans()):  # per-variable assignment; samplers may stay unused, variables may have no sampler
+            assign = [draw(st.integers(-1, s_n - 1)) for _ in range(n)]
+            if all(a < 0 for a in assign):
+                assign[0] = s_n - 1
+        return {"S": s_n, "assign": assign, "nocopy": draw(st.booleans()), "n": n, "R": r_n, "P": p_n, "x": x, "lb": lb, "ub": ub, "types": types, "magnitudes": mags,
                 "boundary": [draw(st.integers(1, 3)) for _ in range(n)], "samples": samples,
                 "scales": [draw(st.sampled_from([0.5, 2.0, 10.0, 3.0])) for _ in range(n)] if scaled else None,
                 "offsets": [draw(st.sampled_from([0.0, 1.0, -2.5])) for _ in range(n)] if scaled else None}
@@ -136,6 +164,8 @@ def hypothesis_shard(item: dict[str, Any]) -> Collector:
         info = run_case(case)
         col.case(case, nontrivial=info["left"], classes=(
             "left-bounds" if info["left"] else "stayed-inside", "scaled" if case["scales"] else "unscaled",
+            f"samplers={case['S']}", "unused-sampler" if case["assign"] and len(set(a for a in case["assign"] if a >= 0)) < case["S"] else "all-samplers-used",
+            "sampler-keeps-array" if case["nocopy"] else "fresh-arrays",
             *(f"boundary={b}" for b in sorted(set(case["boundary"]))), "relative" if 2 in case["types"] else "absolute-only"))  # noqa: PLR2004
 
     run_hypothesis(col, cases(), body, seed=item["seed"], max_examples=item["examples"])
